@@ -27,6 +27,13 @@
 (* Repaired = TRUE is the code as it is now.  Repaired = FALSE is the code AS  *)
 (* FOUND (defect variants F-C13-1): no current() check after acquiring, and    *)
 (* DeleteRUnlock removes the entry unconditionally.                            *)
+(* Every release method passes a verif point at its entry (cmap.unlock.begin,  *)
+(* cmap.runlock.begin, cmap.deleteunlock.begin, cmap.deleterunlock.begin,      *)
+(* cmap.delete.begin): RelBegin; its effect on the map and the mutex is one    *)
+(* critical section of the map's lock: Rel; then it returns: RelRet.           *)
+(* NonAtomicDeleteUnlock = TRUE is a defect variant in which DeleteUnlock is   *)
+(* Unlock(key) followed by Delete(key): a waiter can take the mutex and find   *)
+(* it still registered in between.                                             *)
 (* The client program is not baked in: Call takes key and mode, Exit takes the *)
 (* release call (chosen from the constant sets when model checking, from the   *)
 (* recorded call events when validating traces).                               *)
@@ -37,7 +44,8 @@ CONSTANTS NG, Keys, Rounds,
           WRels,       \* how writers release: subset of {"unlock", "deleteunlock"}
           RRels,       \* how readers release: subset of {"runlock", "deleterunlock"}
           PlainDelete, \* TRUE: a Delete(key) may be issued at any time by a bystander
-          Repaired
+          Repaired,
+          NonAtomicDeleteUnlock  \* TRUE: defect variant - DeleteUnlock = Unlock(key); Delete(key), two critical sections
 G == 1..NG
 Objs == 1..(NG * Rounds)
 
@@ -95,14 +103,18 @@ Ret(g) == /\ pc[g] = "ret" /\ pc' = [pc EXCEPT ![g] = "in"]
 Exit(g, rl) == /\ pc[g] = "in" /\ pc' = [pc EXCEPT ![g] = "unl"] /\ rel' = [rel EXCEPT ![g] = rl]
                /\ c' = CNext2(c, Ev("exit", g), [ev |-> "rel_call", g |-> g, how |-> rl])
                /\ UNCHANGED <<items, nextObj, wm, w, r, key, mode, my, left, crashed>>
+(* the entry point of Unlock / RUnlock / DeleteUnlock / DeleteRUnlock *)
+RelBegin(g) == /\ pc[g] = "unl" /\ pc' = [pc EXCEPT ![g] = "rel"]
+               /\ UNCHANGED <<items, nextObj, wm, w, r, key, mode, rel, my, left, crashed, c>>
 (* Unlock, RUnlock, DeleteUnlock, DeleteRUnlock: look up again, unlock what is found, (delete) *)
-Rel(g) == /\ pc[g] = "unl"
+Split(g) == NonAtomicDeleteUnlock /\ rel[g] = "deleteunlock"
+Rel(g) == /\ pc[g] = "rel"
           /\ LET k == key[g]
                  o == items[k]
                  wr == rel[g] \in {"unlock", "deleteunlock"}
                  fatal == o # 0 /\ (IF wr THEN ~w[o] ELSE r[o] = 0)
                  tryLock == o # 0 /\ wm[o] = 0 /\ r[o] = 1            \* after the RUnlock: no reader, no writer holding or pending
-                 del == \/ rel[g] = "deleteunlock"
+                 del == \/ rel[g] = "deleteunlock" /\ ~Split(g)
                         \/ rel[g] = "deleterunlock" /\ (IF Repaired THEN tryLock ELSE TRUE)
              IN IF fatal
                 THEN /\ crashed' = TRUE /\ c' = CNext(c, [ev |-> "crash", what |-> "unlock of unlocked RWMutex"])
@@ -111,8 +123,11 @@ Rel(g) == /\ pc[g] = "unl"
                         ELSE IF wr THEN w' = [w EXCEPT ![o] = FALSE] /\ wm' = [wm EXCEPT ![o] = 0] /\ UNCHANGED r
                         ELSE r' = [r EXCEPT ![o] = @ - 1] /\ UNCHANGED <<w, wm>>
                      /\ items' = IF del THEN [items EXCEPT ![k] = 0] ELSE items
-                     /\ pc' = [pc EXCEPT ![g] = "released"] /\ UNCHANGED <<left, c, crashed>>
+                     /\ pc' = [pc EXCEPT ![g] = IF Split(g) THEN "du2" ELSE "released"] /\ UNCHANGED <<left, c, crashed>>
           /\ UNCHANGED <<nextObj, key, mode, rel, my>>
+(* defect variant: the second half of a non-atomic DeleteUnlock *)
+RelDeleteHalf(g) == /\ pc[g] = "du2" /\ items' = [items EXCEPT ![key[g]] = 0] /\ pc' = [pc EXCEPT ![g] = "released"]
+                    /\ UNCHANGED <<nextObj, wm, w, r, key, mode, rel, my, left, crashed, c>>
 (* the release call returns; a waiter it let in may have returned (and been seen returning) before *)
 RelRet(g) == /\ pc[g] = "released" /\ pc' = [pc EXCEPT ![g] = "idle"] /\ left' = [left EXCEPT ![g] = @ - 1]
              /\ c' = CNext(c, Ev("rel_ret", g))
@@ -133,7 +148,7 @@ Next == /\ ~crashed
            \/ \E k \in Keys : Delete(k)
            \/ \E g \in G : \/ \E k \in Keys, m \in Modes : Call(g, k, m)
                            \/ \E rl \in Rels(mode[g]) : Exit(g, rl)
-                           \/ Look(g) \/ Create(g) \/ WEnter(g) \/ WAcq(g) \/ RAcq(g) \/ Check(g) \/ Ret(g) \/ Rel(g) \/ RelRet(g)
+                           \/ Look(g) \/ Create(g) \/ WEnter(g) \/ WAcq(g) \/ RAcq(g) \/ Check(g) \/ Ret(g) \/ RelBegin(g) \/ Rel(g) \/ RelDeleteHalf(g) \/ RelRet(g)
 Spec == Init /\ [][Next]_vars /\ WF_vars(Next)
 
 Contract == ~IsBad(c)
@@ -141,5 +156,7 @@ Contract == ~IsBad(c)
 HoldsCurrent == \A g \in G : pc[g] \in {"ret", "in", "unl"} => items[key[g]] = my[g]
 (* the RWMutex bookkeeping: write-locked only by the owner of the inner mutex, never together with readers *)
 RWInv == \A o \in Objs : (w[o] => wm[o] # 0 /\ r[o] = 0) /\ r[o] >= 0
+(* mutual exclusion stated directly on the model: two goroutines inside critical sections of one key are both readers *)
+NoTwoHolders == \A g1, g2 \in G : (g1 # g2 /\ pc[g1] = "in" /\ pc[g2] = "in" /\ key[g1] = key[g2]) => (mode[g1] = "r" /\ mode[g2] = "r")
 AllFinish == <>(\A g \in G : pc[g] = "idle" /\ left[g] = 0)
 =============================================================================
